@@ -34,8 +34,9 @@ ASSUMPTIONS = [
 
 PROFILE = Profile()
 PROFILE_INFEASIBLE = Profile(name="infeasible_last", free_constraints=0.9, p_table_constraint=1.0,
-                             free_p_true=0.35, max_periods=2, p_filter=0.4, max_disc_choices=2,
-                             max_cont_states=1, max_cont_choices=1)
+                             free_p_true=0.35, max_periods=3, p_filter=0.4, max_disc_choices=2,
+                             max_cont_states=1, max_cont_choices=1, p_infeasible_last=0.7, min_disc_states=1,
+                             min_periods=2)
 
 
 PROFILE_DROP = Profile(name="drop_filter", p_filter=1.0, filter_modes=("drop",), p_period_filter=0.9,
